@@ -133,6 +133,8 @@ def run(ctx):
     cg = callgraph(prog)
     rep.rule("TLV-1", "ForwardTLV only under announce_propagate(); accepted types = IEEE Table 52", floor=2)
     rep.rule("TLV-2", "every TLV append is gated on room + sender and paired with the margin decrement", floor=2)
+    rep.rule("TLV-10", "a TLV taken from the provider (next_if_smaller == Some: removed from the queue, size <= room) is "
+                       "appended without a further size test (no loss at exact fit)", floor=1)
     rep.rule("TLV-3", "own path trace = received path + own identity; a looped Announce (own identity anywhere in the received path) has no effect", floor=3)
     rep.rule("TLV-4", "library assertion on provided TLVs is not stronger than the provider contract", floor=1)
     rep.rule("TLV-5", "minimum TLV element size agrees between builder and parsers", floor=1)
@@ -262,6 +264,30 @@ def run(ctx):
                     if not snd:
                         problems.append("forwarded TLV is not checked against parentDS.parent_port_identity")
                 construct = "add(%s)" % ("PATH_TRACE" if is_pt else "forwarded")
+                if not is_pt:
+                    # TLV-10: next_if_smaller has already REMOVED this TLV from the queue (and guarantees size <= room):
+                    # a further size test on the way to add() can only lose it
+                    extra = []
+                    flip = {"lt": "gt", "gt": "lt", "le": "ge", "ge": "le"}
+                    for l in lits:
+                        if l[0] != "cmp" or l[1] not in flip:
+                            continue
+                        a_, b2_ = df.canon(l[2], b), df.canon(l[3], b)
+                        rel = None
+                        if "size(" in a_ and "margin" in b2_ and "size(" not in b2_:
+                            rel = l[1]
+                        elif "size(" in b2_ and "margin" in a_ and "size(" not in a_:
+                            rel = flip[l[1]]
+                        # `size <= margin` is the provider's own contract (TLV-4 checks the assertion of it)
+                        if rel is not None and rel != "le":
+                            extra.append(cnd.lit_str(l))
+                    if extra:
+                        rep.violation("TLV-10", b.key, "forwarded TLV taken from the provider is appended",
+                                      "a TLV that next_if_smaller already handed out (and removed from the queue) is appended "
+                                      "only under a further size test %s: a TLV whose size equals the remaining room is "
+                                      "dropped instead of forwarded" % extra, where=where)
+                    else:
+                        rep.ok("TLV-10", b.key, "forwarded TLV taken from the provider is appended", where=where)
                 if problems:
                     rep.violation("TLV-2", b.key, construct, "; ".join(problems), where=where)
                 else:
@@ -330,6 +356,34 @@ def run(ctx):
                           "forwarded PATH_TRACE TLVs are not filtered when the instance appends its own", where=sa_.loc())
     except AnchorMissing as e:
         rep.anchor_missing("TLV-2", str(e))
+
+    # ---------------- TLV-11 the path restarts when the instance becomes grandmaster
+    rep.rule("TLV-11", "decision M1/M2 (the instance is its own grandmaster) clears pathTraceDS.list unconditionally: the "
+                       "path of a grandmaster starts with itself", floor=1)
+    try:
+        sr = prog.one(name="set_recommended_state", self_name="Port", crate="statime-lib")
+        c_ = cnd.conds(prog, sr)
+        n11 = 0
+        for bi, t, cal in mir.iter_calls(sr, name="clear"):
+            if "path_trace_ds" not in df.canon(c_.prov.op_tree(t["args"][0]), sr):
+                continue
+            n11 += 1
+            lits = cnd.expand_literals(prog, sr, set(c_.must_literals(bi)))
+            dec = [l for l in lits if l[0] == "variant" and l[3] == "RecommendedState"]
+            other = [l for l in lits if l not in dec and not (l[0] == "variant" and df.strip(l[1])[0] == "call")]
+            if dec and all(set(l[2]) <= {"M1", "M2"} for l in dec) and not other:
+                rep.ok("TLV-11", sr.key, "M1/M2 clears the path", where=fc.where(sr, t["sp"][1]))
+            else:
+                rep.violation("TLV-11", sr.key, "M1/M2 clears the path",
+                              "pathTraceDS.list is cleared only under %s: an instance that becomes grandmaster keeps the path "
+                              "of its former parent and announces [old grandmaster, .., own] - upstream clocks see their own "
+                              "identity and discard the Announces as loops" % sorted(cnd.lit_str(l) for l in lits),
+                              where=fc.where(sr, t["sp"][1]))
+        if n11 == 0:
+            rep.violation("TLV-11", sr.key, "M1/M2 clears the path", "set_recommended_state never clears pathTraceDS.list",
+                          where=sr.loc())
+    except AnchorMissing as e:
+        rep.anchor_missing("TLV-11", str(e))
 
     # ---------------- TLV-3b loop check precedes every effect
     try:
